@@ -239,16 +239,19 @@ Definition to_array (a : arr) (v : pyval) : out pyval :=
              let d := from_byte_like v in
              match d with
              | PStr s =>
-                 if has_structure_char s then Unmodelled
-                 else arr_make a [d]
+                 (* data = data.strip() before the bracket / separator tests *)
+                 let s' := strip s in
+                 if negb (str_forall is_ascii7 s) then Unmodelled
+                 else if has_structure_char s' then Unmodelled
+                 else arr_make a [PStr s']
              | PDict kvs =>
                  match a with
-                 | ASet | AFrozen => if ndl then raise_type else arr_make a (map fst kvs)
+                 | ASet => if ndl then raise_type else arr_make a (map fst kvs)      (* issubclass(t, set): not frozenset *)
                  | _ => match kvs with [] => arr_make a [] | _ => arr_make a [d] end
                  end
              | PInst _ kvs =>
                  match a with
-                 | ASet | AFrozen => if ndl then raise_type else arr_make a (map (fun kv => PStr (fst kv)) kvs)
+                 | ASet => if ndl then raise_type else arr_make a (map (fun kv => PStr (fst kv)) kvs)
                  | _ => match kvs with [] => arr_make a [] | _ => arr_make a [d] end
                  end
              | _ => arr_make a [d]
